@@ -56,7 +56,7 @@ PROPS['C09'] = dict(
 )
 
 PROPS['C01'] = dict(
-    prop_modules=['Vise.Props.C01'], lean_targets=['Vise.Props.C01'], suites=['render', 'engine'],
+    prop_modules=['Vise.Props.C01', 'Vise.Props.C01Engine'], lean_targets=['Vise.Props.C01', 'Vise.Props.C01Engine'], suites=['render', 'engine'],
     compare={'engine': eng(['x', 'c', 'f', 'o'])},
     trusted=ENGINE_TRUSTED + ["pages of 4 GiB and more (uint32 wrap of len) are excluded by hypothesis r.length < 2^32"],
     assumptions=["OutputSize > 0"],
